@@ -121,8 +121,9 @@ class SymWorld:
         self.goals.append(Goal(name, t, getattr(cond, "margin", None), meta, list(self.run.path), nassume=len(self.run.assumptions)))
 
     def lemma(self, name, cond, **meta):
-        """prove cond, then let later goals use it"""
+        """prove cond, then let later goals use it (the assumption is dropped again if the proof does not succeed)"""
         self.goal(name, cond, **meta)
+        self.goals[-1].lemma_index = len(self.run.assumptions)
         self.assume(cond)
 
     def witness(self, name, cond, **meta):
@@ -131,9 +132,14 @@ class SymWorld:
 
     def vc_goals(self, prefix, kinds=("div", "sqrt", "log", "index")):
         """turn the definedness conditions raised so far into goals"""
+        seen = {}
         for i, (kind, g, c) in enumerate(self.run.vcs):
-            if kind in kinds:
-                self.goals.append(Goal("%s/vc%d:%s" % (prefix, i, kind), z3.Implies(g, c), None, {"vc": str(c)[:200]}, list(self.run.path), nassume=len(self.run.assumptions)))
+            if kind.split("@")[0] in kinds:
+                nm = "%s/%s" % (prefix, kind if "@" in kind else "vc%d:%s" % (i, kind))
+                seen[nm] = seen.get(nm, 0) + 1
+                if seen[nm] > 1:
+                    nm += "~%d" % seen[nm]
+                self.goals.append(Goal(nm, z3.Implies(g, c), None, {"vc": str(c)[:200]}, list(self.run.path), nassume=len(self.run.assumptions)))
 
     def note(self, s):
         self.notes.append(s)
@@ -270,10 +276,20 @@ def run_obligation(fn, params, name, timeout=20.0, fork=False, max_paths=64, vac
                 continue
             out["goals"].append({"goal": "<reachability>" + ("" if not dec else "#p%d" % npaths), "verdict": "reachable" if r["verdict"] == "sat" else "reach-unknown", "time": r["time"], "trivial": True})
         import fnmatch as _fn
-        for g in W.goals:
-            if only and not any(_fn.fnmatch(g.name, pat) for pat in only):
+        W.dead = set()
+        sel = [(getattr(g, "lemma_index", None) is None) and (not only or any(_fn.fnmatch(g.name, pat) for pat in only)) for g in W.goals]
+        last_sel = max([i for i, s_ in enumerate(sel) if s_], default=-1)
+        for gi, g in enumerate(W.goals):
+            li = getattr(g, "lemma_index", None)
+            if li is None and not sel[gi]:
                 continue
-            out["goals"].append(_discharge(fn, params, W, g, base, timeout, replay, npaths if fork else None))
+            if li is not None and (gi > last_sel or not any(sel[gi + 1:])):
+                W.dead.add(li)
+                continue
+            rec = _discharge(fn, params, W, g, base, timeout, replay, npaths if fork else None)
+            if li is not None and rec["verdict"] != "holds":
+                W.dead.add(li)       # an unproved lemma is not available to later goals
+            out["goals"].append(rec)
     out["paths"] = npaths
     out["wall_s"] = round(time.time() - t0, 3)
     return out
@@ -282,7 +298,8 @@ def run_obligation(fn, params, name, timeout=20.0, fork=False, max_paths=64, vac
 def _discharge(fn, params, W, g, base, timeout, replay, pathno):
     gname = g.name if pathno is None else "%s#p%d" % (g.name, pathno)
     rec = {"goal": gname, "meta": _jsonable(g.meta), "expect": g.expect}
-    q = (W.run.assumptions[:g.nassume] + W.run.side if g.nassume is not None else base) + g.path
+    dead = getattr(W, "dead", set())
+    q = ([a for i, a in enumerate(W.run.assumptions[:g.nassume]) if i not in dead] + W.run.side if g.nassume is not None else base) + g.path
     if g.expect == "sat":
         r = solve.check(q + [g.t], timeout=timeout, inputs=W.inputs)
         rec.update(verdict={"sat": "holds", "unsat": "violated", "unknown": "unknown"}[r["verdict"]], time=r["time"], engine=r["engine"], size=r["size"], hash=r["hash"])
@@ -299,29 +316,46 @@ def _discharge(fn, params, W, g, base, timeout, replay, pathno):
     rec.update(time=r["time"], engine=r["engine"], size=r["size"], hash=r["hash"])
     if r["verdict"] == "unsat":
         rec["verdict"] = "holds"
-    elif r["verdict"] == "unknown":
+    elif r["verdict"] == "unknown" and not (W.nice and _bug_hunt(W, g, q, timeout, rec, fn, params, replay)):
         rec["verdict"] = "unknown"
+    elif r["verdict"] == "unknown":
+        pass    # _bug_hunt found and replayed a counterexample in the bounded box
     else:
-        models = [r["model"] or {}]
-        # ask for replay-friendly models: (a) harness-supplied "nice" constraints (dyadic parameters survive the
-        # conversion to binary64), (b) bounded inputs and a clear margin
-        for extra in ([W.nice + W.bounds] if W.nice else []) + ([W.nice] if W.nice else []) + ([[g.margin] + W.bounds] if g.margin is not None else []):
-            r2 = solve.check(q + [z3.Not(g.t)] + list(extra), timeout=min(timeout, 10.0), inputs=W.inputs, portfolio=False)
-            if r2["verdict"] == "sat" and r2["model"]:
-                models.insert(0, r2["model"])
-        rec["model"] = {k: _fr(v) for k, v in models[0].items() if "!" not in k}
+        raw = r["model"] or {}
+        rec["model"] = {k: _fr(v) for k, v in raw.items() if "!" not in k}
         if replay:
             rec["verdict"] = "unconfirmed"
-            for mdl in models:
+
+            def _try(mdl):
                 ok, info = replay_goal(fn, params, mdl, g.name)
                 rec["replay"] = info
                 if ok:
                     rec["verdict"] = "violated"
                     rec["model"] = {k: _fr(v) for k, v in mdl.items() if "!" not in k}
-                    break
+                return ok
+            if not _try(raw):
+                # ask for replay-friendly models: (a) harness-supplied "nice" constraints (dyadic parameters survive the
+                # conversion to binary64), (b) bounded inputs and a clear margin
+                for extra in ([W.nice + W.bounds] if W.nice else []) + ([W.nice] if W.nice else []) + ([[g.margin] + W.bounds] if g.margin is not None else []):
+                    r2 = solve.check(q + [z3.Not(g.t)] + list(extra), timeout=min(timeout, 10.0), inputs=W.inputs, portfolio=False)
+                    if r2["verdict"] == "sat" and r2["model"] and _try(r2["model"]):
+                        break
         else:
             rec["verdict"] = "sat-noreplay"
     return rec
+
+
+def _bug_hunt(W, g, q, timeout, rec, fn, params, replay):
+    """the full query was inconclusive: look for a counterexample inside the harness's 'nice' bounded box
+    (a sat answer there is a genuine counterexample; unsat/unknown there proves nothing and is not reported as success)"""
+    r3 = solve.check(q + [z3.Not(g.t)] + W.nice + W.bounds, timeout=max(5.0, timeout / 2), inputs=W.inputs)
+    if r3["verdict"] != "sat" or not r3["model"] or not replay:
+        return False
+    ok, info = replay_goal(fn, params, r3["model"], g.name)
+    if not ok:
+        return False
+    rec.update(verdict="violated", replay=info, model={k: _fr(v) for k, v in r3["model"].items() if "!" not in k}, engine=(r3["engine"] or "") + " (bounded box)")
+    return True
 
 
 def replay_goal(fn, params, model, goal_name):
@@ -333,6 +367,10 @@ def replay_goal(fn, params, model, goal_name):
         # the real code raises on this input: for a 'never raises' goal that confirms it
         info = {"raised": "%s: %s" % (type(e).__name__, str(e)[:300])}
         return (goal_name.endswith("noraise") or goal_name.startswith("<exception")), info
+    if goal_name not in Wc.goals and getattr(Wc, "resolver", None) is not None:
+        v = Wc.resolver(goal_name)
+        if v is not None:
+            Wc.goals[goal_name] = (bool(v), {})
     if goal_name not in Wc.goals:
         return False, {"note": "goal not reached concretely"}
     ok, meta = Wc.goals[goal_name]
